@@ -65,7 +65,9 @@ class _Crash:
         if isinstance(path, bytes):
             path = path.decode()
         ap = os.path.abspath(path)
-        if self.root and not ap.startswith(self.root):
+        if self.root and not ap.startswith(self.root) and not ap.endswith(".gffutils"):
+            # outside the output folder only the scratch files of the annotation converter count (they are written in the middle of the
+            # conversion, when the database in the output folder is half built)
             return
         if os.getpid() != self.main_pid:
             # worker process: mutations are logged but not numbered in the global order; optionally the whole
